@@ -1,11 +1,16 @@
-/-! Prototype: atomic-segment LTS of falcon/asgi/ws.py `_BufferedReceiver` (pump task + receive()),
-    with a trace-inclusion checker for logs recorded from the real code. -/
+/-! C18: atomic-segment LTS of falcon/asgi/ws.py `_BufferedReceiver` (pump task + `receive()`), the disconnect flag read by
+    `WebSocket._send`, cancellation of a pending `receive()` and `stop()`; with a trace-inclusion checker for logs recorded
+    from the real code.  A *segment* is what one task does between two awaits; any enabled segment may fire, which
+    over-approximates asyncio's FIFO ready queue, so invariants of the LTS hold under every real schedule. -/
 namespace Wb
 
 inductive Ev where
   | pull | deliver (m : Nat) | append (m : Nat) | popleft (m : Nat)
   | mkfutPump | mkfutApp | resolvePump | resolveApp | cancelApp
   | recvStart | recvRet (m : Nat) | recvSynthetic
+  | recvCancelled           -- the task awaiting `receive()` was cancelled while parked
+  | sendOk | sendDisc       -- `WebSocket._send`: the flag was clear / set
+  | stop                    -- `_BufferedReceiver.stop()`: the pump task is cancelled
 deriving Repr, BEq, DecidableEq
 
 def discMsg : Nat := 999
@@ -29,7 +34,7 @@ structure S where
   putWAttr : Bool := false
   disc : Bool := false
   app : AppPc := .idle
-deriving Repr
+deriving Repr, DecidableEq
 
 /-- tail of a pump segment once it is allowed to enqueue `m` -/
 def pumpEnqueue (s : S) (m : Nat) : List Ev × S :=
@@ -41,52 +46,65 @@ def pumpEnqueue (s : S) (m : Nat) : List Ev × S :=
   if s.disc then (evs, { s with pump := .exited })
   else (evs ++ [Ev.pull], { s with pump := .pulling })
 
+/-- segments of the pump task -/
+def pumpSegs (s : S) (next : Option Ev) : List (List Ev × S) :=
+  match s.pump with
+  | .idle => [([Ev.pull], { s with pump := .pulling })]
+  | .pulling =>
+    match next with
+    | some (.deliver m) => [([Ev.deliver m], { s with pump := .got m })]
+    | _ => []
+  | .got m =>
+    let s := { s with disc := s.disc || m == discMsg }
+    if s.q.length ≥ s.cap then [([Ev.mkfutPump], { s with pump := .holding m, putW := some false, putWAttr := true })]
+    else [pumpEnqueue s m]
+  | .holding m =>
+    if s.putW == some true then
+      let s := { s with putW := none, putWAttr := false }
+      if s.q.length ≥ s.cap then [([Ev.mkfutPump], { s with putW := some false, putWAttr := true })]
+      else [pumpEnqueue s m]
+    else []
+  | .exited => []
+
+/-- the part of `receive()` from the `while not self._messages` test on -/
+def popSeg (s : S) (pre : List Ev) : List Ev × S :=
+  match s.q with
+  | m :: rest =>
+    let s := { s with q := rest }
+    let (evs, s) :=
+      if s.putWAttr then ([Ev.popleft m, Ev.resolvePump], { s with putW := s.putW.map (fun _ => true), putWAttr := false })
+      else ([Ev.popleft m], s)
+    (pre ++ evs ++ [Ev.recvRet m], { s with app := .idle })
+  | [] => (pre ++ [Ev.mkfutApp], { s with popW := some false, popWAttr := true, app := .waiting })
+
+/-- segments of the task that calls `receive()` -/
+def appSegs (s : S) : List (List Ev × S) :=
+  match s.app with
+  | .idle => [popSeg s [Ev.recvStart]]
+  | .waiting =>
+    (if s.popW == some true then
+      [popSeg { s with popW := none, popWAttr := false } []]
+    else if s.pump == .exited then
+      [([Ev.cancelApp, Ev.recvSynthetic], { s with popW := none, popWAttr := false, app := .idle })]
+    else [])
+    -- cancellation of the parked task: `finally: self._pop_message_waiter = None`; the queue is untouched
+    ++ [([Ev.recvCancelled], { s with popW := none, popWAttr := false, app := .idle })]
+
+/-- `WebSocket._send` reads the flag; `stop()` cancels the pump (a held event is dropped with it) -/
+def otherSegs (s : S) : List (List Ev × S) :=
+  [([if s.disc then Ev.sendDisc else Ev.sendOk], s),
+   ([Ev.stop], { s with pump := .exited, putW := none, putWAttr := false })]
+
 /-- every enabled atomic segment with the events it emits -/
 def segments (s : S) (next : Option Ev) : List (List Ev × S) :=
-  let pumpSegs : List (List Ev × S) :=
-    match s.pump with
-    | .idle => [([Ev.pull], { s with pump := .pulling })]
-    | .pulling =>
-      match next with
-      | some (.deliver m) => [([Ev.deliver m], { s with pump := .got m })]
-      | _ => []
-    | .got m =>
-      let s := { s with disc := s.disc || m == discMsg }
-      if s.q.length ≥ s.cap then [([Ev.mkfutPump], { s with pump := .holding m, putW := some false, putWAttr := true })]
-      else [pumpEnqueue s m]
-    | .holding m =>
-      if s.putW == some true then
-        let s := { s with putW := none, putWAttr := false }
-        if s.q.length ≥ s.cap then [([Ev.mkfutPump], { s with putW := some false, putWAttr := true })]
-        else [pumpEnqueue s m]
-      else []
-    | .exited => []
-  let popSeg (s : S) (pre : List Ev) : List Ev × S :=
-    match s.q with
-    | m :: rest =>
-      let s := { s with q := rest }
-      let (evs, s) :=
-        if s.putWAttr then ([Ev.popleft m, Ev.resolvePump], { s with putW := s.putW.map (fun _ => true), putWAttr := false })
-        else ([Ev.popleft m], s)
-      (pre ++ evs ++ [Ev.recvRet m], { s with app := .idle })
-    | [] => (pre ++ [Ev.mkfutApp], { s with popW := some false, popWAttr := true, app := .waiting })
-  let appSegs : List (List Ev × S) :=
-    match s.app with
-    | .idle => [popSeg s [Ev.recvStart]]
-    | .waiting =>
-      if s.popW == some true then
-        [popSeg { s with popW := none, popWAttr := false } []]
-      else if s.pump == .exited then
-        [([Ev.cancelApp, Ev.recvSynthetic], { s with popW := none, popWAttr := false, app := .idle })]
-      else []
-  pumpSegs ++ appSegs
+  pumpSegs s next ++ appSegs s ++ otherSegs s
 
 def isPrefix : List Ev → List Ev → Bool
   | [], _ => true
   | _ :: _, [] => false
-  | a :: as, b :: bs => a == b && isPrefix as bs
+  | a :: as, b :: bs => decide (a = b) && isPrefix as bs
 
-/-- safety properties checked at every reached state (the theorems will state these as invariants) -/
+/-- safety properties checked at every reached state (the theorems state these as invariants) -/
 def invOk (s : S) : Bool :=
   s.q.length ≤ s.cap
   && (!(s.popW == some false) || s.q.isEmpty)            -- pending pop waiter ⇒ queue empty (no lost wake-up)
@@ -101,5 +119,19 @@ def accept : Nat → S → List Ev → Nat → Except String S
     match (segments s log.head?).find? (fun seg => !seg.1.isEmpty && isPrefix seg.1 log) with
     | some (evs, s') => accept fuel s' (log.drop evs.length) (i + evs.length)
     | none => .error s!"no enabled segment at event {i}"
+
+/-- the events the framework holds: the queue plus the one the pump has pulled but not yet enqueued -/
+def held (s : S) : List Nat :=
+  s.q ++ (match s.pump with | .got m => [m] | .holding m => [m] | _ => [])
+
+def delivered : List Ev → List Nat
+  | [] => []
+  | .deliver m :: r => m :: delivered r
+  | _ :: r => delivered r
+
+def returned : List Ev → List Nat
+  | [] => []
+  | .recvRet m :: r => m :: returned r
+  | _ :: r => returned r
 
 end Wb
